@@ -174,14 +174,17 @@ Definition C03_full : Prop :=
 (* What IS proved (partial): (A) at the end every counted input is on disk with its recorded hash
    and completion leaves the rows untouched; (B) at the start every declared input was attached,
    BUILT or CONFIRMED and on disk with its recorded hash; (C) every accepted amend request of the
-   window reported nothing unavailable or unfresh and answered carry_on = True; (D) for a declared
-   input, under db_stable (the recorded hash is the same at both ends of the window) and no_aba
-   (no writer restores the exact content, size and mode inside the window), the content equals
-   the recorded hash at every moment of the window.
-   Missing for the full statement: db_stable is NOT enforced by the code (second refutation:
-   a defect), no_aba cannot be observed by end-point hashing (first refutation: an assumption),
-   and for amended inputs the part of the window before the amend request is covered only through
-   the freshness verdict (C03_fresh_verdict_sound), not through a hash taken at the start. *)
+   window reported nothing unavailable or unfresh and answered carry_on = True; (D) for every
+   declared input that counts at the end, the hash recorded at the end IS the hash the command
+   started from (Executor._flag_inputs_not_final, fix a02f82b; formerly the hypothesis db_stable),
+   the file is the same at both ends of the window, and under no_aba (no writer restores the exact
+   content, size and mode inside the window) its content equals the recorded hash at every moment
+   of the window; (E) an amended input that counts at the end and is BUILT by a step p has
+   ran_concurrently(p, c) = False when the command returns (see C03_reachable_verdict_sound for
+   what that means in event order).
+   Missing for the full statement: no_aba cannot be observed by end-point hashing (refutation
+   below: an assumption), and for amended inputs the part of the window before the amend request is
+   covered only through the freshness verdict, not through a hash taken at the start. *)
 Theorem C03_succeeded_inputs_final_partial :
   forall (w0 : world) (t : N) (mid : list ev) (t' : N) (ok : bool),
     snd (do_try w0 t) = RTry true ->
@@ -199,11 +202,16 @@ Theorem C03_succeeded_inputs_final_partial :
        mid = pre ++ EAmend ps :: post ->
        snd (step (run pre w1) (EAmend ps)) = RAmend false unav unfr carry ->
        unav = [] /\ unfr = [] /\ carry = true) /\
-    (forall f, In f (c_init w0) -> In f (considered w2) -> db_stable w1 mid f -> no_aba w1 mid f ->
-       forall m1, prefix_of m1 mid -> disk (run m1 w1) f = f_hash (files w3 f)).
+    (forall f, In f (c_init w0) -> In f (considered w2) ->
+       f_hash (files w3 f) = f_hash (files w0 f) /\ disk w2 f = disk w1 f /\
+       (no_aba w1 mid f -> forall m1, prefix_of m1 mid -> disk (run m1 w1) f = f_hash (files w3 f))) /\
+    (forall f p, In f (considered w2) -> sm_get f (snapshot w0) = None ->
+       f_state (files w2 f) = FS_BUILT -> f_producer (files w2 f) = Some p ->
+       ran_conc (bk w2) p (c_id w2) = false).
 Proof. exact succeeded_inputs_final_partial. Qed.
 
-(* Refutation by A-B-A (db_stable holds): inherent to end-point hashing, an ASSUMPTION. *)
+(* Refutation of the full statement by A-B-A (the recorded hash never changes): inherent to
+   end-point hashing, an ASSUMPTION, not a defect. *)
 Theorem C03_full_refuted_by_aba :
   exists w0 t mid t' ok f m1,
     snd (do_try w0 t) = RTry true /\ forallb in_window mid = true /\
@@ -213,21 +221,27 @@ Theorem C03_full_refuted_by_aba :
     disk (run m1 (fst (do_try w0 t))) f <> f_hash (files (fst (step (run mid (fst (do_try w0 t))) (EEnd t' ok))) f).
 Proof. exact inputs_final_full_refuted_by_aba. Qed.
 
-(* Refutation without any restoring write: the recorded hash of a declared input is re-recorded
-   while the command runs (its producer is executed again), the file differs between the two ends
-   of the window, and the step still ends SUCCEEDED.  A DEFECT of the code, replayed on the
-   implementation (findings.d/C03-rerun.json). *)
-Theorem C03_full_refuted_by_producer_rerun :
-  exists w0 t mid t' ok f,
-    snd (do_try w0 t) = RTry true /\ forallb in_window mid = true /\
-    c_state (fst (step (run mid (fst (do_try w0 t))) (EEnd t' ok))) = SS_SUCCEEDED /\
-    In f (c_init w0) /\ In f (considered (run mid (fst (do_try w0 t)))) /\
-    disk (run mid (fst (do_try w0 t))) f <> disk (fst (do_try w0 t)) f /\
-    disk (fst (do_try w0 t)) f <> f_hash (files (fst (step (run mid (fst (do_try w0 t))) (EEnd t' ok))) f).
-Proof. exact inputs_final_full_refuted_by_producer_rerun. Qed.
-
 Theorem C03_full_refuted : ~ C03_full.
 Proof. exact inputs_final_full_refuted. Qed.
+
+(* Regression witness (finding D19, fixed by a02f82b).  The producer 8 of the declared input 1 is
+   executed again while the command of c runs and rewrites the file (4 -> 7, nothing restored).
+   The completion step WITHOUT _flag_inputs_not_final (do_end_gen false, the code before the fix)
+   records SUCCEEDED on a content the command did not start from; the current completion step
+   (do_end, whose shape is regenerated from execute_job) ends PENDING and not deferred, so the step
+   runs again.  If the call disappears from execute_job, exec_flags_inputs_not_final becomes false,
+   do_end becomes do_end_gen false, clause (D) above no longer proves, and the oracle replays this
+   very trace on the implementation (signature ...hash-re-recorded-by-producer-rerun). *)
+Theorem C03_prefix_variant_refuted_by_producer_rerun :
+  let w0 := wit_world FS_BUILT 4 (Some 8) in
+  let w1 := fst (do_try w0 1) in
+  let w2 := run rerun_mid w1 in
+  snd (do_try w0 1) = RTry true /\ forallb in_window rerun_mid = true /\
+  In 1 (c_init w0) /\ In 1 (considered w2) /\ disk w2 1 <> disk w1 1 /\
+  c_state (fst (do_end_gen false w2 4 true)) = SS_SUCCEEDED /\
+  disk w1 1 <> f_hash (files (fst (do_end_gen false w2 4 true)) 1) /\
+  c_state (fst (do_end w2 4 true)) = SS_PENDING /\ c_deferred (fst (do_end w2 4 true)) = false.
+Proof. exact prefix_variant_refuted_by_producer_rerun. Qed.
 
 (* ---------------------------------------------------------------------------------------- *)
 (* Non-vacuity.                                                                              *)
